@@ -227,13 +227,13 @@ pub fn c02_corpus<V: Fv>(seed: u64, thorough: bool, out: &mut Shards) {
         }
     }
     // random bodies
-    for _ in 0..(if thorough { 24 } else { 3 }) {
+    for _ in 0..(if thorough { 200 } else { 3 }) {
         let mut body = vec![0u8; body_len];
         rng.fill_bytes(&mut body);
         out.emit(verify_event::<V>(&msg, &sig_bytes::<V>(&salt, &body), &pkb0, "random-body"));
     }
     // --- boundary triples
-    let ks: Vec<usize> = if thorough { vec![0, 1, n / 2, n - 1] } else { vec![0, n - 1] };
+    let ks: Vec<usize> = if thorough { vec![0, 1, 2, 3, 7, n / 4, n / 2 - 1, n / 2, n / 2 + 1, n - 3, n - 2, n - 1] } else { vec![0, n - 1] };
     let mut twist = 1u64;
     for &k in &ks {
         for &sign in &[1i32, -1] {
@@ -241,8 +241,10 @@ pub fn c02_corpus<V: Fv>(seed: u64, thorough: bool, out: &mut Shards) {
                 if !thorough && sign == -1 && k != 0 && delta != 0 {
                     continue;
                 }
-                twist += 1;
-                out.emit(boundary_event::<V>(&mut rng, V::BOUND + delta, k, sign, twist, "boundary"));
+                for _ in 0..(if thorough { 3 } else { 1 }) {
+                    twist += 1;
+                    out.emit(boundary_event::<V>(&mut rng, V::BOUND + delta, k, sign, twist, "boundary"));
+                }
             }
         }
     }
